@@ -29,6 +29,7 @@ from cantools.database.can.database import Database as CanDatabase
 from cantools.database.can.message import Message as CanMessage
 from cantools.database.can.signal import Signal as CanSignal
 from cantools.database.can.node import Node as CanNode
+from cantools.database.conversion import BaseConversion
 
 from fcp.specs.v2 import FcpV2
 from fcp.result import Result, Ok, Err
@@ -65,6 +66,9 @@ def _make_signals(
                     "big_endian" if piece.endianess == "big" else "little_endian"
                 ),
                 is_signed=piece.type.is_signed(),
+                conversion=BaseConversion.factory(
+                    is_float=getattr(piece.type, "name", None) in ("f32", "f64")
+                ),
                 minimum=0,
                 maximum=0,
                 unit=piece.unit,
